@@ -153,7 +153,7 @@ where
         //@ }
         //@ proof {
         //@     let (a, re, b) = (r_from as int, r_upto_exclusive as int, l_upto_exclusive as int);
-        //@     assert(group_ok(map@, a, re, b));
+        //@     assert(group_ok(map@, a, re, b)); // contract-step: the group just written is one cycle
         //@     assert forall|j: int| 0 <= j < b implies #[trigger] in_group(map@, j, b) by {
         //@         if j < a {
         //@             assert(in_group(m0, j, a));
